@@ -130,7 +130,7 @@ theorem exec_neutral (c : Cfg) :
 theorem exec_serialise (c : Cfg) :
     ∀ (l : List Bytes) (i : Nat) (st : St),
       exec c none i (l.map .serialise) st =
-        (none, { st with mem := { st.mem with parts := st.mem.parts ++ l } }) := by
+        (none, { st with mem := { st.mem with parts := l.reverse ++ st.mem.parts } }) := by
   intro l
   induction l with
   | nil => intro i st; simp [exec]
@@ -185,7 +185,7 @@ theorem exec_after_validate (c : Cfg) (i : Nat) (fs : FS) :
       ((List.range c.callbacks).map .callback ++ [.filename, .xsValidate]
         ++ (if c.skipReconstruction then [] else (List.range c.commits).map .commit)
         ++ (c.header :: c.sections).map .serialise ++ [.compress] ++ [.openWrite]) (St.init fs)
-      = (none, { mem := { parts := c.header :: c.sections, compressed := some (c.deflate c.sections.flatten) },
+      = (none, { mem := { parts := (c.header :: c.sections).reverse, compressed := some (c.deflate c.sections.flatten) },
                  fs := fs.put c.dest c.payload }) := by
   have hneu : ∀ s ∈ (List.range c.callbacks).map Step.callback ++ [Step.filename, Step.xsValidate]
         ++ (if c.skipReconstruction then [] else (List.range c.commits).map Step.commit), s.neutral = true := by
@@ -207,7 +207,7 @@ theorem exec_after_validate (c : Cfg) (i : Nat) (fs : FS) :
 
 theorem save_unfaulted (c : Cfg) (fs : FS) (hp : c.passes = true) :
     exec c none 0 (pipeline c) (St.init fs)
-      = (none, { mem := { parts := c.header :: c.sections, compressed := some (c.deflate c.sections.flatten) },
+      = (none, { mem := { parts := (c.header :: c.sections).reverse, compressed := some (c.deflate c.sections.flatten) },
                  fs := fs.put c.dest c.payload }) := by
   unfold pipeline prefixSteps
   cases hsv : c.skipValidation
